@@ -32,14 +32,13 @@ theorem option_copies_are_source :
     CV.Gen.c10_includeOptWrites = ("options.clone()", includeWrites) ∧
     CV.Gen.c10_extendsOptWrites = ("opts.clone()", extendsWrites) ∧
     CV.Gen.c10_body_clone =
-      "{ return &Options{ SkipValidation: o.SkipValidation, SkipInterpolation: o.SkipInterpolation, SkipNormalization: o.SkipNormalization, ResolvePaths: o.ResolvePaths, ConvertWindowsPaths: o.ConvertWindowsPaths, SkipConsistencyCheck: o.SkipConsistencyCheck, SkipExtends: o.SkipExtends, SkipInclude: o.SkipInclude, Interpolate: o.Interpolate, discardEnvFiles: o.discardEnvFiles, projectName: o.projectName, projectNameImperativelySet: o.projectNameImperativelySet, Profiles: o.Profiles, ResourceLoaders: o.ResourceLoaders, KnownExtensions: o.KnownExtensions, Listeners: o.Listeners, } }" := by
+      "{ return &Options{ SkipValidation: o.SkipValidation, SkipInterpolation: o.SkipInterpolation, SkipNormalization: o.SkipNormalization, ResolvePaths: o.ResolvePaths, ConvertWindowsPaths: o.ConvertWindowsPaths, SkipConsistencyCheck: o.SkipConsistencyCheck, SkipExtends: o.SkipExtends, SkipInclude: o.SkipInclude, SkipResolveEnvironment: o.SkipResolveEnvironment, SkipDefaultValues: o.SkipDefaultValues, Interpolate: o.Interpolate, discardEnvFiles: o.discardEnvFiles, projectName: o.projectName, projectNameImperativelySet: o.projectNameImperativelySet, Profiles: o.Profiles, ResourceLoaders: o.ResourceLoaders, KnownExtensions: o.KnownExtensions, Listeners: o.Listeners, } }" := by
   refine ⟨by decide, by decide, rfl⟩
 
 /-! ## the option copies -/
 
 theorem includeOpts_eq (o : Opts) :
-    includeOpts o = { o with resolvePaths := true, skipNormalization := true, skipConsistencyCheck := true,
-                             skipDefaultValues := false } := by
+    includeOpts o = { o with resolvePaths := true, skipNormalization := true, skipConsistencyCheck := true } := by
   simp [includeOpts, includeWrites, applyWrite, clone, List.foldl]
 
 theorem extendsOpts_eq (o : Opts) :
